@@ -36,7 +36,7 @@ def dump(scratch, out, only=None, extra_cfg=()):
         "RUSTC_WRAPPER": MIRDUMP_BIN,
         "LD_LIBRARY_PATH": nightly_lib() + ":" + os.environ.get("LD_LIBRARY_PATH", ""),
         "MIRDUMP_OUT": out,
-        "RUSTFLAGS": "--cfg verif_mir -C debug-assertions=off -C overflow-checks=on -Awarnings "
+        "RUSTFLAGS": "--cfg verif_mir -Zalways-encode-mir -C debug-assertions=off -C overflow-checks=on -Awarnings "
                      + " ".join("--cfg " + c for c in extra_cfg),
         "RUSTUP_TOOLCHAIN": "nightly",
         "MIRDUMP_SKIP": ",".join(SKIP),
